@@ -49,7 +49,7 @@ def bcast(a, b):
 
 
 # ------------------------------------------------------------------------------------------ C04
-EW_OPS = {"add": 0, "sub": 1, "mul": 2, "div": 3, "axpy": 4}
+EW_OPS = {"add": 0, "sub": 1, "mul": 2, "div": 3, "axpy": 4, "axpy0": 5}
 
 
 def ew_inst(op, a, b, full=False):
@@ -105,7 +105,7 @@ def c04_instances(tier):
         for op in ("sub", "mul", "axpy"):
             for a, b in (EW_REPRESENTATIVES[6], EW_REPRESENTATIVES[10]):
                 insts.append(ew_inst(op, a, b))
-        insts += [ew_inst("div", [2, 2], [2]), ew_inst("div", [1, 2], [2, 1, 2])]
+        insts += [ew_inst("div", [2, 2], [2]), ew_inst("div", [1, 2], [2, 1, 2]), ew_inst("axpy0", [2, 2], [2]), ew_inst("axpy0", [2], [3])]
     else:
         seen = set()
         for a in shapes_upto(3, (1, 2)):
@@ -115,7 +115,7 @@ def c04_instances(tier):
         for a, b in EW_REPRESENTATIVES:
             if (tuple(a), tuple(b)) not in seen:
                 insts.append(ew_inst("add", a, b))
-            for op in ("sub", "mul", "div", "axpy"):
+            for op in ("sub", "mul", "div", "axpy", "axpy0"):
                 insts.append(ew_inst(op, a, b))
         for op in EW_OPS:
             insts.append(ew_inst(op, [2], [1], full=True))
@@ -232,7 +232,7 @@ PROPS = {
 
 
 # ------------------------------------------------------------------------------------------ K-graph
-G = {"ADD": 0, "MUL": 1, "SUB": 2, "NEG": 3, "SCALE": 4, "UMUL": 5, "UNTRACK": 6, "CLONE": 7}
+G = {"ADD": 0, "MUL": 1, "SUB": 2, "NEG": 3, "SCALE": 4, "UMUL": 5, "UNTRACK": 6, "CLONE": 7, "RETRACK": 8}
 MODES = {0: "seed", 1: "default", 2: "twice", 3: "clear+ones", 4: "mid-then-root"}
 
 
@@ -268,6 +268,8 @@ GRAPHS = {
     "scale_sub": [("SCALE", 0, 0), ("SUB", 2, 1), ("MUL", 3, 3)],
     # tiny graphs: stay decidable even when a change makes control flow depend on the (symbolic) values
     "one_mul": [("MUL", 0, 1)],
+    # an operation result whose handle was untracked and re-tracked (is_tracked without keep_gradient), used twice
+    "user_retrack": [("UMUL", 0, 1), ("RETRACK", 2, 2), ("UMUL", 3, 3), ("ADD", 4, 3)],
     "mul_add": [("MUL", 0, 1), ("ADD", 2, 0)],
 }
 
@@ -290,7 +292,7 @@ def c01_instances(tier):
     I = [gi("one_mul", GRAPHS["one_mul"], dims=(2,)), gi("diamond", GRAPHS["diamond"], dims=(2,), conc=2), gi("diamond", GRAPHS["diamond"]),
          gi("selfprod3", GRAPHS["selfprod3"], mode=1),
          gi("shared", GRAPHS["shared"], tracked=[True, False]), gi("user_chain", GRAPHS["user_chain"]),
-         multiuse_inst([2, 2], [2], 4)]
+         multiuse_inst([2, 2], [2], 4), mm_grad_inst([2, 1], False, [1, 2], False, [2], ta=False, tb=False, tc=True)]
     if tier == "thorough":
         I += [multiuse_inst([2, 3], [3], 4), multiuse_inst([2, 3], [3], 3), multiuse_inst([2, 2], [2, 1], 4), multiuse_inst([2], [1], 4, passes=2)]
         seed = int(os.environ.get("VERIF_SEED", "0") or 0)
@@ -324,7 +326,7 @@ def c10_instances(tier):
 def c11_instances(tier):
     gi = graph_inst
     I = [gi("user_diamond", GRAPHS["user_diamond"]), gi("user_chain", GRAPHS["user_chain"], mode=2),
-         gi("side_consumer", GRAPHS["side_consumer"], root=3)]
+         gi("side_consumer", GRAPHS["side_consumer"], root=3), gi("user_retrack", GRAPHS["user_retrack"])]
     if tier == "thorough":
         U = {"user_selfprod3": [("UMUL", 0, 0), ("UMUL", 2, 2), ("UMUL", 3, 3)],
              "user_fan": [("UMUL", 0, 1), ("UMUL", 2, 0), ("UMUL", 2, 1), ("ADD", 3, 4)],
@@ -363,7 +365,7 @@ _GRAPH_NOTE = ("graph classes concrete (<= 6 nodes, arrays of 1-4 elements), val
                "Rc::drop_slow stubbed (A3); graph families listed in the evidence; thorough adds VERIF_SEED-sampled random node lists")
 
 PROPS.update({
-    "C01": {"level": "model_checking", "kani_groups": ["h_graph.rs", "h_elementwise.rs"], "instances": c01_instances,
+    "C01": {"level": "model_checking", "kani_groups": ["h_graph.rs", "h_elementwise.rs", "h_matmul.rs"], "instances": c01_instances,
             "technique": "bounded contract checking (Kani/CBMC) of the real backward pass on concrete graph classes against a forward-mode oracle",
             "level_text": _GRAPH_TEXT, "level_note": _GRAPH_NOTE, "explanation": _GRAPH_TEXT,
             "not_decided": ["the lifting from the checked graph classes to all programs (induction over the pass) is not machine-checked"]},
@@ -421,8 +423,9 @@ def softmax_inst(rows, mode):
     src = "softmax_instance!(%s, %d, %d, %d);" % (name, rows * 2 + 12, rows, mode)
     return Instance(name, src, function="Array::softmax",
                     contract="C07: exp(x_i)/sum_j exp(x_j) over the last dim, rows non-negative and summing to one; C02: g_i = y_i (s_i - sum_j s_j y_j)",
-                    bounds="[%d,2] rows with first element fixed to -4 (exact quotients under the exp model); second element and seed symbolic" % rows,
-                    descr="softmax", timeout=900)
+                    bounds="[%d,2] rows; forward: first element -4, second symbolic; derivative: two equal symbolic entries, symbolic seed; "
+                           "exp model 2^x (homomorphic, kani/math_models_pow2.c)" % rows,
+                    descr="softmax", timeout=900, math="math_models_pow2")
 
 
 def ew_grad_inst(op, a, b, ta=True, tb=True):
@@ -544,7 +547,7 @@ def multiuse_inst(a, b, uses, passes=1):
 
 
 def c03_instances(tier):
-    I = [flatten_inst([2, 3], [3]), flatten_inst([2, 3], [1, 3]), flatten_inst([2, 2, 3], [2, 3]), flatten_inst([2, 3], [2, 1]),
+    I = [flatten_inst([2, 3], [3]), flatten_inst([2, 3], [1, 3]), flatten_inst([2, 2, 3], [2, 3]), flatten_inst([2, 3], [2, 1]), flatten_inst([2, 2, 2], [2, 1]),
          multiuse_inst([2, 3], [3], 2), multiuse_inst([2, 2], [2, 1], 3), multiuse_inst([2, 2], [2], 4), ew_grad_inst("mul", [2, 1, 2], [1, 2])]
     if tier == "thorough":
         I += [flatten_inst([2, 2, 3], [3]), flatten_inst([2, 2, 3], [2, 1, 3]), flatten_inst([2, 2, 3], [1, 2, 1]), flatten_inst([2, 2], [1]),
@@ -652,7 +655,8 @@ def c09_instances(tier):
                              "result tracked iff an operand (incl. matmul's additive term) is tracked; untracked result keeps no reference",
                              "operand flags SYMBOLIC (all 8 assignments), shapes concrete", unwind=16, timeout=1200))
     gi = graph_inst
-    I += [gi("diamond", GRAPHS["diamond"], tracked=[True, False]), gi("untracked_mid", GRAPHS["untracked_mid"])]
+    I += [gi("diamond", GRAPHS["diamond"], tracked=[True, False]), gi("untracked_mid", GRAPHS["untracked_mid"]),
+          gi("mul_add", GRAPHS["mul_add"], tracked=[True, False], mode=2), gi("user_retrack", GRAPHS["user_retrack"])]
     if tier == "thorough":
         I += [gi("diamond", GRAPHS["diamond"], tracked=[False, True]), gi("diamond", GRAPHS["diamond"], tracked=[False, False]),
               gi("shared", GRAPHS["shared"], tracked=[False, True], mode=2), gi("untracked_mid", GRAPHS["untracked_mid"], mode=2),
@@ -693,7 +697,7 @@ def c18_instances(tier):
 
 def c13_instances(tier):
     I = []
-    sets = [([2], [1, 2], [], 1, 0.5), ([1], [2], [2, 1], 1, 2.0)]
+    sets = [([2], [1, 2], [], 1, 0.5), ([1], [2], [2, 1], 1, 2.0), ([2], [], [], 2, 0.0)]
     if tier == "thorough":
         sets += [([2, 2], [2], [1], 1, 0.5), ([2], [2], [], 2, 2.0), ([1], [2], [1, 2], 2, 0.5), ([3], [], [], 2, 1.0), ([1, 1], [2, 1], [2], 1, 1.0)]
     for a, b, c, rounds, lr in sets:
